@@ -209,3 +209,143 @@ Definition ex_out_sortshuffle : val :=
      L [L [L [I 4; L [I 2]]; L [I 2; L [I 0]]; L [I 2; L [I 1]]; L [I 1; L [I 0]]]]].
 Example agree_sort_shuffled_run : agree_C06 ex_in_sortshuffle (run_C06 ex_in_sortshuffle) ex_out_sortshuffle = true.
 Proof. vm_compute. reflexivity. Qed.
+
+(** ** the generator inside the model ("seed in, behaviour out"; C06_Seeded.v, RNG_Model.v)
+
+    [batches_seeded size sort shuffle prefetch limit ty seed input]: [Batched::new(.., Some(seed))]
+    drained — the generator is [ChaCha8Rng::seed_from_u64 seed], threaded through the calls of
+    [build_batch]; a shuffle is [SliceRandom::shuffle] on the buffer, an index is
+    [random_range(0..number of sub-sequences)], drawn where and when the code draws them.
+    [fits n]: n is a length a [Vec] can have (below isize::MAX). *)
+From TU Require Import RNG_Model RNG_Proofs.
+From TU Require Import C06_Seeded C06_Seeded_Proofs.
+Local Open Scope nat_scope.
+
+(** seeded run = oracle run under ONE oracle that satisfies [oracle_guard]: the premise of
+    [batches_total] is discharged by the facts proved about the modelled generator
+    ([rng_shuffle_perm], [rng_random_range_lt] below), not assumed *)
+Theorem seeded_oracle : forall (A : Type) (size : A -> nat) sort shuffle prefetch lim ty seed (input : list A),
+  fits (length input) ->
+  exists o, oracle_guard o /\
+    batches size sort shuffle prefetch lim ty o input = batches_seeded size sort shuffle prefetch lim ty seed input.
+Proof. exact @seeded_oracle_l. Qed.
+Print Assumptions seeded_oracle.
+
+(** hence, for every seed: the iteration ends, without assertion / splice / index / empty-range panic ... *)
+Theorem batches_total_seeded : forall (A : Type) (size : A -> nat) sort shuffle prefetch lim ty seed (input : list A),
+  fits (length input) -> exists bs, batches_seeded size sort shuffle prefetch lim ty seed input = Ok bs.
+Proof. exact @seeded_total_l. Qed.
+Print Assumptions batches_total_seeded.
+
+(** ... the batches partition the input, none is empty, the limit holds ... *)
+Theorem batches_partition_seeded : forall (A : Type) (size : A -> nat) sort shuffle prefetch lim ty seed (input : list A) bs,
+  fits (length input) -> batches_seeded size sort shuffle prefetch lim ty seed input = Ok bs ->
+  Permutation (concat bs) input.
+Proof. exact (fun A size sort shuffle prefetch lim ty seed input bs Hf H =>
+               proj1 (seeded_props_l size sort shuffle prefetch lim ty seed input bs Hf H)). Qed.
+Print Assumptions batches_partition_seeded.
+
+Theorem batches_nonempty_seeded : forall (A : Type) (size : A -> nat) sort shuffle prefetch lim ty seed (input : list A) bs,
+  fits (length input) -> batches_seeded size sort shuffle prefetch lim ty seed input = Ok bs ->
+  Forall (fun b => b <> []) bs.
+Proof. exact (fun A size sort shuffle prefetch lim ty seed input bs Hf H =>
+               proj1 (proj2 (seeded_props_l size sort shuffle prefetch lim ty seed input bs Hf H))). Qed.
+Print Assumptions batches_nonempty_seeded.
+
+Theorem batches_limit_seeded : forall (A : Type) (size : A -> nat) sort shuffle prefetch lim ty seed (input : list A) bs,
+  fits (length input) -> batches_seeded size sort shuffle prefetch lim ty seed input = Ok bs ->
+  Forall (fun b => 1 < length b -> limit size ty b <= Nat.max lim 1) bs.
+Proof. exact (fun A size sort shuffle prefetch lim ty seed input bs Hf H =>
+               proj2 (proj2 (seeded_props_l size sort shuffle prefetch lim ty seed input bs Hf H))). Qed.
+Print Assumptions batches_limit_seeded.
+
+(** ... and without sort and shuffle: input order, greedy-maximal batches *)
+Theorem plain_seeded : forall (A : Type) (size : A -> nat) prefetch lim ty seed (input : list A) bs,
+  fits (length input) -> batches_seeded size false false prefetch lim ty seed input = Ok bs ->
+  concat bs = input /\
+  forall i b b' x, nth_error bs i = Some b -> nth_error bs (S i) = Some (x :: b') ->
+    Nat.max lim 1 < limit size ty (b ++ [x]).
+Proof. exact @seeded_plain_l. Qed.
+Print Assumptions plain_seeded.
+
+(** determinism: [batches_seeded] is a function of (configuration, seed, input) with the generator
+    inside; without shuffle the seed does not matter at all — the run is the oracle model's for
+    every oracle *)
+Theorem seeded_noshuffle : forall (A : Type) (size : A -> nat) sort prefetch lim ty seed o (input : list A),
+  fits (length input) ->
+  batches_seeded size sort false prefetch lim ty seed input = batches size sort false prefetch lim ty o input.
+Proof. exact @seeded_noshuffle_l. Qed.
+Print Assumptions seeded_noshuffle.
+
+(** the executable statement holds of the seeded model's own output *)
+Theorem check_run_seeded : forall v, fits (length (v_items v)) -> check_C06 v (run_C06s v) = true.
+Proof. exact check_run_seeded_l. Qed.
+Print Assumptions check_run_seeded.
+
+(** What acceptance by the FIRST line of the correspondence ([seeded_ok]: the implementation's batch
+    sequence equals the seeded run's) means: that sequence, resolved to items, is [batches_seeded]
+    of (items, configuration, seed), and it is a run of the oracle model under an oracle in range *)
+Theorem seeded_sound : forall v i, fits (length (v_items v)) -> seeded_ok (run_C06s v) i = true ->
+  run_seeded v = Ok (map (map (lookup (v_items v))) (v_batches (v_nth 0 i))) /\
+  exists o, oracle_guard o /\
+    run_with o v = Ok (map (map (lookup (v_items v))) (v_batches (v_nth 0 i))).
+Proof. exact seeded_sound_l. Qed.
+Print Assumptions seeded_sound.
+
+Theorem seeded_transfers : forall v i, fits (length (v_items v)) -> seeded_ok (run_C06s v) i = true ->
+  let items := v_items v in
+  let ty := v_ty (v_nth 4 v) in
+  let lm := v_nat (v_nth 3 v) in
+  let bs := map (map (lookup items)) (v_batches (v_nth 0 i)) in
+  Permutation (concat bs) items /\
+  Forall (fun b => b <> []) bs /\
+  Forall (fun b => 1 < length b -> limit isize ty b <= Nat.max lm 1) bs /\
+  (v_bool (v_nth 0 v) = false -> v_bool (v_nth 1 v) = false ->
+   concat bs = items /\
+   forall k b b' x, nth_error bs k = Some b -> nth_error bs (S k) = Some (x :: b') ->
+     Nat.max lm 1 < limit isize ty (b ++ [x])).
+Proof. exact seeded_transfers_l. Qed.
+Print Assumptions seeded_transfers.
+
+(** the facts about the modelled generator this rests on (RNG_Props.v), re-pinned so that every run
+    of this check audits them *)
+Theorem rng_seed_wf : forall seed, RNG_Proofs.wf (seed_from_u64 seed).
+Proof. exact RNG_Proofs.wf_seed. Qed.
+Print Assumptions rng_seed_wf.
+
+Theorem rng_shuffle_perm : forall (A : Type) (l : list A) st, Permutation (fst (RNG_Model.shuffle l st)) l.
+Proof. exact @RNG_Proofs.shuffle_perm_l. Qed.
+Print Assumptions rng_shuffle_perm.
+
+Theorem rng_shuffle_keeps_wf : forall (A : Type) (l : list A) st, RNG_Proofs.wf st ->
+  (N.of_nat (length l) < 2 ^ 64)%N -> RNG_Proofs.wf (snd (RNG_Model.shuffle l st)).
+Proof. exact RNG_Proofs.shuffle_wf. Qed.
+Print Assumptions rng_shuffle_keeps_wf.
+
+Theorem rng_random_range_lt : forall n st i st', RNG_Proofs.wf st ->
+  random_range n st = Some (i, st') -> (i < n)%N /\ RNG_Proofs.wf st'.
+Proof. exact RNG_Proofs.random_range_spec. Qed.
+Print Assumptions rng_random_range_lt.
+
+Theorem rng_random_range_defined : forall n st, random_range n st <> None <-> (0 < n < 2 ^ 64)%N.
+Proof. exact RNG_Proofs.random_range_some. Qed.
+Print Assumptions rng_random_range_defined.
+
+(** known answers: the two runs of the REAL crate above (seed 3, shuffle; seed 9, sort + shuffle) are
+    reproduced by the seeded model from (items, configuration, seed) alone, and accepted on all lines *)
+Local Open Scope Z_scope.
+Example fits_witness : fits 8%nat /\ fits 1025%nat.
+Proof. unfold fits. repeat split; reflexivity. Qed.
+Example seeded_shuffled_run : run_C06s ex_in_shuffle = L [v_nth 0 ex_out_shuffle; I 1; L []]
+  /\ agree_C06s ex_in_shuffle (run_C06s ex_in_shuffle) ex_out_shuffle = true.
+Proof. vm_compute. split; reflexivity. Qed.
+Example seeded_sort_shuffled_run : run_C06s ex_in_sortshuffle = L [v_nth 0 ex_out_sortshuffle; I 1; L []]
+  /\ agree_C06s ex_in_sortshuffle (run_C06s ex_in_sortshuffle) ex_out_sortshuffle = true.
+Proof. vm_compute. split; reflexivity. Qed.
+(** another seed gives another sequence; another valid order of the same batches is rejected *)
+Example seeded_other_seed :
+  run_C06s (L [I 0; I 1; I 2; I 6; I 1; I 4; L [I 1; I 2; I 3; I 1; I 2; I 0; I 1; I 2]]) <> run_C06s ex_in_shuffle.
+Proof. vm_compute. discriminate. Qed.
+Example seeded_rejects_other_valid_run :
+  seeded_ok (run_C06s ex_in_shuffle) (L [L [L [I 4; I 3; I 0]; L [I 6; I 7]; L [I 1; I 5]; L [I 2]]; I 1; ex_obs_shuffle]) = false.
+Proof. vm_compute. reflexivity. Qed.
